@@ -16,8 +16,8 @@ RULE = ("histories of N protect calls (identical and different arguments, nonce 
 ASSUMPTIONS = ["successive os.urandom draws are distinct (probabilistic premise)"]
 
 
-def history(ctx, real, mode, n_ops, constant_rng=False, cases=None):
-    roots = clientsim.standard_roots(real=real)
+def history(ctx, real, mode, n_ops, constant_rng=False, cases=None, odd=False):
+    roots = clientsim.odd_roots() if odd else clientsim.standard_roots(real=real)
     rec = ctx.rng.choice([r for r in roots if not (r.secret_algorithm == "DH" and len(r.secret_parameters) > 100 and mode == "public")])
     kw = {} if real else dict(kdf_factory=clientsim.toy_kdf_factory, public_key_fn=clientsim.toy_public_key)
     dc = refdc.KeyServer(now=(361, 17, 13), public_for=(lambda sd: True) if mode == "public" else (lambda sd: False), **kw)
@@ -92,6 +92,9 @@ def run(ctx):
             ctx.count("toy_history:" + mode)
         n += history(ctx, False, mode, 6, constant_rng=True, cases=cases)
         ctx.count("constant_rng_history:" + mode)
+        for _ in range(8 if ctx.thorough else 3):
+            n += history(ctx, False, mode, ctx.rng.randrange(4, 9), cases=cases, odd=True)
+            ctx.count("toy_history_unaligned_key_length:" + mode)
     ctx.compare_batch(cases, nontrivial=lambda line, impl: line.count("pbegin") >= 2)
     # real os.urandom support run
     total = 0
